@@ -1,11 +1,1 @@
-SPECIFICATION TSpec
-CONSTANTS
-  MaxLen = 0
-  MaxDepth = 0
-  VNames = {"a"}
-  LNames = {"a"}
-  BodyKinds = {"O"}
-  Configs = {}
-  Strict = FALSE
-POSTCONDITION Accepted
-CHECK_DEADLOCK FALSE
+
